@@ -68,6 +68,10 @@ func (r *body) Read(b []byte) (int, error) {
 	if err := r.checkContentLengthViolation(); err != nil {
 		return n, err
 	}
+	if err == io.EOF && r.hasContentLength && r.remainingContentLength > 0 {
+		// the stream ended before the declared Content-Length was reached, see section 4.1.2 of RFC 9114
+		return n, io.ErrUnexpectedEOF
+	}
 	return n, maybeReplaceError(err)
 }
 
